@@ -130,3 +130,103 @@ class _ConstMethod:
 
     def call(self, ev, args, kwargs, lineno):
         return self.v
+
+
+class NetObj:
+    """the pandapipes net as seen by the functions under contract: a mapping with string keys that
+    are also attributes (ADict).  Unknown keys raise KeyError / AttributeError."""
+
+    def __init__(self, items=None, name="net"):
+        self.items = dict(items or {})
+        self.name = name
+        self.writes = []
+
+    def getitem(self, ev, key, lineno):
+        from .ev import _Raise, ExcVal
+        if not isinstance(key, str):
+            raise Unsupported("net[%r]" % (key,))
+        if key not in self.items:
+            raise _Raise(ExcVal("KeyError", (key,)))
+        return self.items[key]
+
+    def setitem(self, ev, key, v, lineno):
+        self.items[key] = v
+        self.writes.append(key)
+
+    def delitem(self, ev, key, lineno):
+        self.items.pop(key)
+        self.writes.append(key)
+
+    def contains(self, ev, key):
+        return key in self.items
+
+    def getattr_(self, ev, attr, lineno):
+        from .ev import _Raise, ExcVal, BoundMethod
+        if attr in self.items:
+            return self.items[attr]
+        if attr in ("get", "pop", "keys", "update"):
+            return _NetMethod(self, attr)
+        raise _Raise(ExcVal("AttributeError", (attr,)))
+
+    def setattr_(self, ev, attr, v, lineno):
+        self.items[attr] = v
+        self.writes.append(attr)
+
+
+class _NetMethod:
+    def __init__(self, net, name):
+        self.net = net
+        self.name = name
+
+    def call(self, ev, args, kwargs, lineno):
+        n = self.net
+        if self.name == "get":
+            return n.items.get(args[0], args[1] if len(args) > 1 else None)
+        if self.name == "pop":
+            n.writes.append(args[0])
+            if args[0] in n.items:
+                return n.items.pop(args[0])
+            if len(args) > 1:
+                return args[1]
+            from .ev import _Raise, ExcVal
+            raise _Raise(ExcVal("KeyError", (args[0],)))
+        if self.name == "keys":
+            return list(n.items.keys())
+        if self.name == "update":
+            for a in args:
+                n.items.update(a)
+                n.writes.extend(a.keys())
+            return None
+
+
+def make_fluid(is_gas, name="fluid", comp_2d=False):
+    """fluid object whose *methods are the real ones* of pandapipes.properties.fluids.Fluid; the
+    property objects behind them are uninterpreted functions (their classes are under contract
+    in C19)."""
+    from .ev import Obj
+    from . import classes
+    R_ = z3.RealSort()
+    props = {}
+    ufs = {}
+    for pname in ("density", "viscosity", "heat_capacity"):
+        uf = z3.Function("%s_%s" % (name, pname), R_, R_)
+        ufs[pname] = uf
+        props[pname] = Obj(pname, {"get_at_value": _UFMethod(uf, 1)})
+    if comp_2d:
+        uf = z3.Function("%s_compressibility" % name, R_, R_, R_)
+        props["compressibility"] = Obj("compressibility", {"get_at_value": _UFMethod(uf, 2),
+                                                           "allow_2d": True})
+    else:
+        uf = z3.Function("%s_compressibility" % name, R_, R_)
+        props["compressibility"] = Obj("compressibility", {"get_at_value": _UFMethod(uf, 1)})
+    ufs["compressibility"] = uf
+    dc = z3.Real(name + "_der_compressibility")
+    props["der_compressibility"] = Obj("der_compressibility", {"get_at_value": _ConstMethod(dc)})
+    ufs["der_compressibility"] = dc
+    mm = z3.Real(name + "_molar_mass")
+    props["molar_mass"] = Obj("molar_mass", {"get_at_value": _ConstMethod(mm)})
+    cref = S.get_module("pandapipes.properties.fluids").classes["Fluid"]
+    o = Obj(name, {"name": name, "is_gas": is_gas, "fluid_type": "gas" if is_gas else "liquid",
+                   "all_properties": props}, cls=cref)
+    o.ufs = ufs
+    return o
